@@ -155,6 +155,32 @@ def greedy_failures(seed):
     return out
 
 
+def greedy_v_failures():
+    """a source within the linking length of members of two different groups ('V'): the result must stay a partition"""
+    from AegeanTools.models import SimpleSource
+    out = []
+    for ra0, dec0 in ((10.0, 0.0), (150.0, -45.0), (301.0, 62.0)):
+        cosd = np.cos(np.radians(dec0))
+        cat = []
+        for name, dra, ddec, flux in (("A", -60.0, 40.0, 3.0), ("B", 60.0, 40.0, 2.0), ("C", 0.0, 0.0, 1.0), ("D", 900.0, 900.0, 5.0)):
+            s_ = SimpleSource()
+            s_.ra, s_.dec = ra0 + dra / 3600.0 / cosd, dec0 + ddec / 3600.0
+            s_.a = s_.b = 60.0
+            s_.pa, s_.peak_flux, s_.island, s_.source = 0.0, flux, 0, 0
+            s_.name = name
+            cat.append(s_)
+        for order in ((0, 1, 2, 3), (2, 0, 1, 3), (1, 3, 0, 2)):
+            try:
+                groups = cluster.regroup([copy.deepcopy(cat[k]) for k in order], eps=1)
+            except Exception as e:
+                return [("greedy_no_exception", "regroup raised %r" % (e,))]
+            names = sorted(s_.name for g in groups for s_ in g)
+            if names != ["A", "B", "C", "D"]:
+                return [("greedy_partition", "V configuration at (%g, %g), row order %s: groups %s" % (
+                    ra0, dec0, order, [[s_.name for s_ in g] for g in groups]))]
+    return out
+
+
 def crosscheck(p):
     n = 60 if p.get("tier") != "thorough" else 1500
     s0 = p.get("seed", 0) * 7001
@@ -172,14 +198,26 @@ def crosscheck(p):
         run(dbscan_failures, "dbscan", i)
         run(resize_failures, "resize", i)
         run(greedy_failures, "greedy", i)
+    evals += 1
+    for lab, what in greedy_v_failures():
+        if lab not in seen:
+            seen.add(lab)
+            failures.append({"label": lab, "input": {"greedy_v": True}, "what": what, "replay_func": "replay_regroup",
+                             "replay_payload": {"greedy_v": True}})
     return {"evaluations": evals, "failures": failures,
             "rule": "random catalogues (1..40 sources, clustered/sparse, poles, RA wrap, duplicates, equal fluxes): regroup_dbscan vs "
                     "union-find on great-circle separations, relabelling, frame, permutation; resize with/without psf columns; "
-                    "greedy regroup partition for <= 5 sources (bounded stand-in)"}
+                    "greedy regroup partition for <= 5 sources and 'V' configurations in several row orders (bounded stand-in)"}
 
 
 def replay_regroup(p):
     bad = []
+    if p.get("greedy_v") or not any(k in p for k in ("dbscan", "resize", "greedy")):
+        fl = greedy_v_failures()
+        if fl:
+            bad.append({"greedy_v": True, "what": fl})
+        if p.get("greedy_v"):
+            return {"fails": bool(bad), "observed": bad, "replay_func": "replay_regroup", "replay_payload": {"greedy_v": True}}
     for kind, fn in (("dbscan", dbscan_failures), ("resize", resize_failures), ("greedy", greedy_failures)):
         seeds = p.get(kind)
         if seeds is None and not any(k in p for k in ("dbscan", "resize", "greedy")):
